@@ -28,6 +28,9 @@ func Cfg(key, val string)
 func Param(name string, def int) int
 func Unix(sec int64, loc *time.Location) time.Time
 func Symbolic() bool
+func And(xs ...bool) bool
+func Or(xs ...bool) bool
+func Implies(a, b bool) bool
 
 func P[X any](v X) *X { return &v }
 
